@@ -72,7 +72,7 @@ META = {
         level='Roles of every operand of solve / stable_solve / trace / column selection in MVDR, Souden MVDR, WMWF, LCMV and the reference-channel criterion, exactly-one-conjugate '
               'inner products, arg-MAX of target-over-noise SNR, and that stacks of steering vectors reach numpy.linalg.solve as explicit column matrices. '
               'Optimality inequalities and scaling invariances are NOT decided. '
-              'Also: a channel selection vector contracts the column index of the WMWF filter matrix.',
+              'Also: a channel selection vector contracts the column index of the WMWF filter matrix. Also: the automatic reference channel is ranked on the matrix whose column is returned.',
         note='Trusted: NumPy >= 2 semantics of linalg.solve, documented argument shapes.',
         design='DESIGN.md section 3 (C11)'),
     'C12': dict(
@@ -88,7 +88,7 @@ META = {
         level='For all 12 names x {plain, +ban} plus chN: the primitives called, their order, the slots they are chained through and the returned value equal the composition the name spells. '
               'apply_beamforming_vector contracts conj(w) with the sensor axis; every literal axis in (..., )-documented beamforming functions counts from the right (phase_correction: -2); '
               'stable_solve falls back per matrix, index-local; MVDR solves stacks as columns. Finite-ness on singular input is NOT decided. '
-              'Also: phase_correction rotates bin f by the phase of w_f^H w_{f-1} summed over sensors and accumulates phasors by a product; every data reduction in the per-index helpers names its axis. Also: every array indexed by the flat loop index of stable_solve is a stack flattened to 3-D; no dropped clamp in the beamformer modules.',
+              'Also: phase_correction rotates bin f by the phase of w_f^H w_{f-1} summed over sensors and accumulates phasors by a product; every data reduction in the per-index helpers names its axis. Also: every array indexed by the flat loop index of stable_solve is a stack flattened to 3-D; no dropped clamp in the beamformer modules. Also: the helpers that pick their own reference channel rank the columns of the matrix they return a column of (shared with C11).',
         note='Trusted: the naming convention of the wrapper itself; exceptions table for front-broadcast / fixed-layout axes.',
         design='DESIGN.md section 3 (C13)'),
     'C14': dict(
@@ -101,7 +101,7 @@ META = {
     'C15': dict(
         technique='static analysis: exhaustive arg-max loop recogniser (R-SEL c) + orientation typing of score matrices (einsum structure, transposes, argument order)',
         level='Optimality clause: complete strict arg-max enumeration with objective sum_k score[k, perm[k]]. Inversion clause, structural part: all score metrics are rows = reference / '
-              'columns = estimate, assignment maps row -> column, apply_mapping gathers the estimate, the oracle wires (mask, reference_mask) and its configured algorithm; the cos score is free of the scale of its arguments (exact normalisers only). '
+              'columns = estimate, assignment maps row -> column, apply_mapping gathers the estimate, the oracle wires (mask, reference_mask) and its configured algorithm; the cos score is free of the scale of its arguments (exact normalisers only). The euclidean score is the negative norm of the row difference, laid out [independent..., reference, estimate] (axis labels followed through every pure reordering; the expansion |a|^2+|b|^2-2<a,b> is a deviation). '
               'Exact inversion for every permutation field is NOT decided.',
         note='Shares rule instances with C14.',
         design='DESIGN.md section 3 (C15)'),
@@ -112,7 +112,7 @@ META = {
               'on a copy, centroid from the current features); the greedy aligner composes adjacent-bin assignments with the composed predecessor in increasing f from an identity column. '
               'Of plan coverage only a necessary condition is decided: for every outcome of the branch conditions of alignment_plan some segment is stretched to each band edge (0 and F). '
               'Recovery of a consistent order, identity on consistent masks and full plan coverage are NOT decided (no sound static argument in reach). '
-              'Also decided: the bins re-assigned in a DHTV segment are the bins its centroid was averaged over, cosine features are normalised over time, every planned segment spans segment_width bins. Also: under \'cos\' neither the bin\'s features nor the centroid reach the per-bin score without the time normaliser.',
+              'Also decided: the bins re-assigned in a DHTV segment are the bins its centroid was averaged over, cosine features are normalised over time, every planned segment spans segment_width bins. Also: under \'cos\' neither the bin\'s features nor the centroid reach the per-bin score without the time normaliser. Also: the centroid is not written into a buffer of the dtype of the mask (R-DTYPE).',
         note='The behavioural clauses of C16 quantify over all masks / all plan configurations; see DESIGN.md section 6.',
         design='DESIGN.md section 3 (C16)'),
     'C05': dict(
@@ -135,7 +135,7 @@ META = {
         level='Each parameter stored in a fitted model is the value of its documented sanitiser with the documented bounds as operands (vMF clip and floored-norm mean, Watson saturating '
               'spline, cACG max-normalisation + floor + finiteness assert + Hermitian scatter, Bingham bounded solver + floor + Hermitian scatter, uniform / L1-normalised weights, floored '
               'Gaussian mass, Cholesky at construction). NaN-freeness on arbitrary degenerate data is NOT decided. '
-              'Also: a relative eigenvalue floor is relative to the largest eigenvalue. Also: no statement-level floor / clamp is computed and dropped (R-DROP).',
+              'Also: a relative eigenvalue floor is relative to the largest eigenvalue. Also: no statement-level floor / clamp is computed and dropped (R-DROP). Also: a python-float floor below float32 tiny is not a positive floor (it is 0.0 against single-precision data).',
         note='Trusted: sanitiser-per-field table from the documentation.',
         design='DESIGN.md section 3 (C09)'),
     'C18': dict(
